@@ -205,3 +205,24 @@ def fp_open(s):
 def be_bytes(arr, off, width):
     """big-endian unsigned integer stored in arr[off:off+width]"""
     return sum(arr[off + i] * 256 ** (width - 1 - i) for i in range(0, width))
+
+
+# ---- counting Bloom filter -----------------------------------------------------------------------
+UINT32_MAX = 4294967295
+UINT64_MAX = 18446744073709551615
+
+
+def inv_cbloom(s):
+    """counting Bloom filter: one uint32 cell per position"""
+    return (s._num_bits >= 1 and s._number_hashes >= 1 and s._bloom_length == s._num_bits
+            and len(s._bloom) == s._bloom_length)
+
+
+def wsum(hashes, n, m, c, w):
+    """total weight the first n hashes put on cell c: w for every j < n with hashes[j] mod m == c
+    (positions that coincide count once each)"""
+    return sum((w if hashes[j] % m == c else 0) for j in range(0, n))
+
+
+def sat32(v):
+    return v if v <= 4294967295 else 4294967295
